@@ -97,6 +97,9 @@ func CTORSites() []Site {
 		{Tag: "lit two-elided []T{{},{}}", Stmt: "_ = []{T}{{}, {}}", Subj: SubjT, Codes: []string{"CTOR01", "CTOR01"}},
 		{Tag: "lit+new use(T{}, new(T))", Stmt: "use({TL}{}, new({T}))", Subj: SubjT, Codes: []string{"CTOR01", "CTOR02"}},
 		{Tag: "lit nested []T{{Xs:nil}} in call", Stmt: "use(len([]{T}{{Xs: nil}}), {TL}{})", Subj: SubjT, Codes: []string{"CTOR01", "CTOR01"}},
+		{Tag: "lit nested T{Next:&T{}}", Stmt: "_ = {TL}{Next: &{TL}{}}", Subj: SubjT, Codes: []string{"CTOR01", "CTOR01"}, Core: true},
+		{Tag: "lit nested T{Kids:[]T{{},{}}}", Stmt: "_ = {TL}{Kids: []{T}{{}, {}}}", Subj: SubjT, Codes: []string{"CTOR01", "CTOR01", "CTOR01"}},
+		{Tag: "lit nested &T{Next:new(T)}", Stmt: "_ = &{TL}{Next: new({T})}", Subj: SubjT, Codes: []string{"CTOR01", "CTOR02"}},
 		{Tag: "new(T)", Stmt: "_ = new({T})", Subj: SubjT, Codes: c2, Core: true, PkgLevel: "var $g = new({T})"},
 		{Tag: "new var v=new(T)", Stmt: "var $v = new({T}); _ = $v", Subj: SubjT, Codes: c2},
 		{Tag: "new arg use(new(T))", Stmt: "use(new({T}))", Subj: SubjT, Codes: c2},
